@@ -168,7 +168,7 @@ def check_constructors(ctx, chk, L, rid="L4", rid0="L0"):
     # every public way of obtaining a PriceLevel value: private helpers are inlined into their callers, other public
     # constructors are treated as (separately checked) delegation targets
     import re as _re
-    ty_re = _re.compile(r"(^|[<\s,(&])price_level::level::PriceLevel($|[>\s,)])")
+    ty_re = _re.compile(r"(^|[<\s,(&])" + _re.escape(L.level_adt["def"]) + r"($|[>\s,)])")
     entries = {}
     for b in db.bodies.values():
         if b.kind == "Closure" or not b.locals:
